@@ -133,6 +133,7 @@ PROPS["C05"] = {
 PROPS["C04"] = {
     "modules": ["Gmsm.Props.C04", "Gmsm.Props.C04HMAC"],
     "theorems": [
+        "Props.C04.length_counted_in_uint64", "Props.C04.narrow_length_wraps",
         "Props.C04HMAC.sumLaw_sum",
         "Props.C04HMAC.hmac_hist_refines",
         "Props.C04HMAC.hmac_eq",
@@ -160,7 +161,7 @@ PROPS["C04"] = {
     "gen_items": ["sm3."],
     "gen_obligations": ["Gen.SM3.iv/updateConsts/update2Consts regenerated from sm3/sm3.go and re-proved equal to the standard's IV and T_j"],
     "level": "proof",
-    "claim": "Lean 4 theorems for every message, every chunking and every Write/Sum/Reset history: the streaming object refines 'SM3 of the bytes written since the last Reset' (invariant by induction over operations), Sum is pure and returns prefix||digest, the Go rotate idiom is rotate-left for all shift counts, the padded message is always a whole number of blocks. HMAC-SM3 and PBKDF2-SM3 from the standard library over sm3.New are compared with RFC 2104 / RFC 8018 specs in Lean by the correspondence run. The 'Consequently' clause as theorems (Model.HMAC, Props.C04HMAC): the code that uses the object through hash.Hash is transcribed step for step - Go's crypto/hmac (the non-marshalable path gmsm's SM3 takes), x509.pbkdf (the library's own PBKDF2), gmtls pHash / prf12(sm3.New) and tls10MAC.MAC - and proved equal to RFC 2104 HMAC, RFC 8018 PBKDF2, the TLS P_hash / PRF and the record MAC of Model.Record, for every key, chunking, history, iteration count and output length, FROM the streaming laws alone (SumLaw: Sum leaves the state untouched and returns prefix ++ digest): hmac_hist_refines, hmac_eq, pbkdf_eq, pHash_eq, prfGM_eq, mac_eq, mac_eq_record. Counter-theorems sumOld_not_law, hmac_breaks_with_sumOld, pbkdf_breaks_with_sumOld show that the pinned commit's Sum broke exactly the Sum(prefix) users. Tied by ops hmacobj/pbkdfx/phashx/prfgmx/macx (600 quick / 5000 thorough).",
+    "claim": "Lean 4 theorems for every message, every chunking and every Write/Sum/Reset history: the streaming object refines 'SM3 of the bytes written since the last Reset' (invariant by induction over operations), Sum is pure and returns prefix||digest, the Go rotate idiom is rotate-left for all shift counts, the padded message is always a whole number of blocks. HMAC-SM3 and PBKDF2-SM3 from the standard library over sm3.New are compared with RFC 2104 / RFC 8018 specs in Lean by the correspondence run. The 'Consequently' clause as theorems (Model.HMAC, Props.C04HMAC): the code that uses the object through hash.Hash is transcribed step for step - Go's crypto/hmac (the non-marshalable path gmsm's SM3 takes), x509.pbkdf (the library's own PBKDF2), gmtls pHash / prf12(sm3.New) and tls10MAC.MAC - and proved equal to RFC 2104 HMAC, RFC 8018 PBKDF2, the TLS P_hash / PRF and the record MAC of Model.Record, for every key, chunking, history, iteration count and output length, FROM the streaming laws alone (SumLaw: Sum leaves the state untouched and returns prefix ++ digest): hmac_hist_refines, hmac_eq, pbkdf_eq, pHash_eq, prfGM_eq, mac_eq, mac_eq_record. Counter-theorems sumOld_not_law, hmac_breaks_with_sumOld, pbkdf_breaks_with_sumOld show that the pinned commit's Sum broke exactly the Sum(prefix) users. Tied by ops hmacobj/pbkdfx/phashx/prfgmx/macx (600 quick / 5000 thorough). Round 12: regenerated shape fact - Write counts the bit length with the multiplication done in uint64 (Props.C04.length_counted_in_uint64; the form found, uint64(len(p) * 8), wraps where int has 32 bits: narrow_length_wraps, repair 1bd5dbe).",
     "note": "Trusted: Lean kernel; Spec.SM3 transcribes GM/T 0004 (validated on the standard's two examples and the empty string); Model.SM3 shares the round structure with the spec (parameterised by the rotate idiom) and is tied to sm3.go by differential runs over histories; crypto/hmac and x/crypto/pbkdf2 are stdlib code, exercised not proved.",
     "trusted_base": [
         "Spec.SM3 / Spec.HMAC are transcriptions of GM/T 0004-2012, RFC 2104, RFC 8018",
